@@ -38,7 +38,7 @@ PLAN = [
     ("runave", 2, 10, 10, 20),
     ("alb", 6, 40, 14, 30),
     ("opes", 4, 30, 12, 24),
-    ("pabf", 2, 16, 10, 24),
+    ("pabf", 4, 24, 10, 24),
     ("mts", 6, 60, 12, 30),
     ("ti", 4, 40, 12, 30),
 ]
